@@ -578,7 +578,7 @@ class Circuit:
         group will be ignored.
         """
         # Convert circuit spec and then assign to attribute
-        new_spec = compress_mode_swaps(deepcopy(self.__circuit_spec))
+        new_spec = compress_mode_swaps(self.__circuit_spec)
         self.__circuit_spec = new_spec
 
     def remove_non_adjacent_bs(self) -> None:
@@ -587,8 +587,7 @@ class Circuit:
         with a mode swap and adjacent beam splitters.
         """
         # Convert circuit spec and then assign to attribute
-        spec = deepcopy(self.__circuit_spec)
-        new_spec = convert_non_adj_beamsplitters(spec)
+        new_spec = convert_non_adj_beamsplitters(self.__circuit_spec)
         self.__circuit_spec = new_spec
 
     def _build(self) -> CompiledCircuit:
